@@ -44,6 +44,14 @@ func main() {
 			os.Exit(1)
 		}
 		fmt.Println("corpus written to", dir)
+	case "corpuscheck":
+		dir := core.Root + "/corpus"
+		if len(os.Args) > 2 {
+			dir = os.Args[2]
+		}
+		if _, d := checks.CorpusCrossCheck(dir); d > 0 {
+			os.Exit(1)
+		}
 	case "c16digest":
 		var seed int64
 		fmt.Sscan(os.Args[2], &seed)
